@@ -229,13 +229,16 @@ LiveAfter(g, L) ==
   ELSE LET kept == g.live \ Ended(g, L) IN
        IF EstAccepted(g, e) /\ NewSeid(L) # ""
        THEN kept \cup {[seid |-> NewSeid(L), cp |-> e.cp, node |-> e.node, ord |-> g.nsess + 1]}
-       ELSE IF e.t = "mod" /\ e.seid \in LiveSeids(g) /\ e.node # ""
+       ELSE IF e.t = "mod" /\ e.seid \in LiveSeids(g) /\ e.node \notin {"", "!bad"}
        THEN LET old == SessOf(g, e.seid).node IN {IF s.node = old THEN [s EXCEPT !.node = e.node] ELSE s : s \in kept}
        ELSE kept
 
+\* A Modification Request whose Node ID IE cannot be decoded ("!bad") may go unanswered; then it must leave no trace (C08)
+Unanswered(L) == L.e.t = "mod" /\ L.e.node = "!bad" /\ MyRsps(L) = <<>>
 TargetSeid(g, L) ==   \* the session whose rules the request's IEs speak about
   LET e == L.e IN
-  IF e.t = "mod" /\ e.seid \in LiveSeids(g) THEN e.seid
+  IF Unanswered(L) THEN ""
+  ELSE IF e.t = "mod" /\ e.seid \in LiveSeids(g) THEN e.seid
   ELSE IF EstAccepted(g, e) THEN NewSeid(L) ELSE ""
 
 CreatedAfter(g, L) ==
@@ -349,6 +352,7 @@ VRsp(g, L) ==
             \cup (IF one THEN V(r.fseid \notin ({"", "0"} \cup LiveSeids(g)), "C04:UP SEID zero or held by another live session") ELSE {})
             \cup (IF one THEN V(\A k \in g.dp : k[1] # r.fseid, "C04:SEID issued while rules of its previous session are still installed") ELSE {})
        [] e.t = "est" -> none
+       [] e.t = "mod" /\ e.seid \in LiveSeids(g) /\ Unanswered(L) -> none
        [] e.t = "mod" /\ e.seid \in LiveSeids(g) ->
             must(r.mt = MT_MODRSP /\ r.hasseid /\ r.seid = SessOf(g, e.seid).cp /\ r.cause = CAUSE_OK,
                  "C08:modification response (peer's SEID / cause)")
@@ -493,7 +497,7 @@ GNextV(g, L, bad) ==
         urr2 == IF usd = "" THEN urr1 ELSE SeqnWalk(urr1, usd, ems).urr
         urr3 == {x \in urr2 : x.seid \in seids2 /\ <<x.seid, "urr", x.id>> \notin RemovedOk(L.calls)}
         refs1 == IF ~dup /\ e.t \in {"mod", "est"} /\ sd # "" THEN RefsAfterOps(g.refs, g.created, e, sd) ELSE g.refs
-        takeover == ~dup /\ e.t = "mod" /\ e.seid \in LiveSeids(g) /\ e.node # ""
+        takeover == ~dup /\ e.t = "mod" /\ e.seid \in LiveSeids(g) /\ e.node \notin {"", "!bad"}
         oldnode == SessOf(g, e.seid).node
         assoc1 == IF ~dup /\ e.t = "assoc" /\ e.node # "" THEN {a \in g.assoc : a.node # e.node} \cup {[node |-> e.node, peer |-> e.peer]}
                   ELSE IF takeover THEN {IF a.node = oldnode THEN [a EXCEPT !.node = e.node] ELSE a : a \in g.assoc}
